@@ -65,8 +65,9 @@ theorem hexDec_ok : Lemmas.RenderLink.hexDec "20" = [32] ∧ Lemmas.RenderLink.h
     the old content is reflowed), the application renders any number of admissible frames at that size,
     the first a refresh — rendered under ANY capability set without explicit width and synchronized
     output (`CapsOkU`: with or without direct colour and styled underlines), the emulator fed `resize` and
-    what its parser delivers for the renderer's tokens (grapheme clustering included, no two graphemes of
-    a frame merging) never panics, stays on the screen it is on, and after the last frame of the last
+    what its parser delivers for the renderer's tokens (grapheme clustering included; no two horizontally
+    neighbouring shown cells of a frame joining — exactly the situation of the known finding F112d, C01's
+    `NoJoinNeighbours`) never panics, stays on the screen it is on, and after the last frame of the last
     segment (the hypotheses are closed under truncation: after EVERY frame) — at the size of that segment —
     * the emulator's grid read back is the application's screen and its cursor read back is the
       requested cursor (equations), and
@@ -98,7 +99,7 @@ theorem c12_end_to_end :
       (enc : G → String) (dec : String → G) (cw : String → Nat), cw "20" = 1 → dec "20" = [32] → dec "" = [] → LpOk dec →
       ∀ (segs : List Seg) (rows cols : Nat) (s : HState) (e : Emu), LinkedP dec cw s e rows cols →
         (∀ sg ∈ segs, SegOkU caps dec cw sg) →
-        (∀ sg ∈ segs, ∀ fi ∈ sg.frames, C12.NoMergeGrid merges fi.next) →
+        (∀ sg ∈ segs, ∀ fi ∈ sg.frames, C01Cluster.NoJoinNeighbours merges cw caps fi.next) →
         ∀ (sg : Seg) (fi : FrameIn), segs.getLast? = some sg → sg.frames.getLast? = some fi → EncOk enc dec fi →
         ∃ (e' : Emu) (per : List (List DrawCall)),
           runSegsM caps merges cat dec cw s e segs = .ok e' ∧
@@ -129,7 +130,8 @@ theorem c12_end_to_end :
     cases hr'
     obtain ⟨hrs, hrc⟩ := shows_reads_back (caps := caps) enc dec cw fi e' ((h sg hsg).2 fi hfi) henc
     refine ⟨e', per, ?_, hm, hrs, hrc, hdraw, hlen, hcur⟩
-    rw [runSegsM_eq merges cat dec cw segs s e hnm]
+    rw [runSegsM_eq_adj merges cat dec cw segs s e (fun sg hsg fi hfi =>
+      ⟨fun r hr c hc => (((hok sg hsg).1.2.2 fi hfi).1.2.2.1 r hr c hc).1, hnm sg hsg fi hfi⟩)]
     exact hr
 
 end VaxisModel.Props.C12Main
